@@ -273,7 +273,8 @@ def fkind(n):
 
 def r4_exact(text):
     import numpy as np
-    return float(np.float32(text)) == float(text)
+    with np.errstate(all="ignore"):
+        return float(np.float32(text)) == float(text)
 
 
 def classify_program(eqs):
@@ -832,6 +833,14 @@ def gen(rng, tier):
             cases.append({'kind': 'run', 'keep': True, 'prog': p0, 'script': script_of(p0), 'n': n0, 'entry': 'solve', 'start': None, 'end': None,
                           'data': {'Y': [lib.fhex(1.0)] * n0, 'X': [lib.fhex(1.0)] * n0, 'a': [lib.fhex(0.5)] * n0},
                           'opts': dict(min_iter=0, max_iter=10, tol=lib.fhex(TOL), offset=0, failures='raise', errors=er, catch_first_error=True)})
+    # solve(start=/end=) with a label that is NOT in the span: KeyError from both engines, nothing changed (FortranEngine.solve validates the
+    # labels itself, fortran.py "Catch invalid `start` and `end` periods here"); oracle only — the model starts from located labels
+    for sp in ('int', 'numpy', 'pandas', 'repeat'):
+        for miss in ('start', 'end'):
+            cases.append({'kind': 'run', 'keep': True, 'prog': p0, 'script': script_of(p0), 'n': 4, 'entry': 'solve', 'start': None, 'end': None,
+                          'span': sp, 'miss': miss,
+                          'data': {'Y': [lib.fhex(1.0)] * 4, 'X': [lib.fhex(1.0)] * 4, 'a': [lib.fhex(0.5)] * 4},
+                          'opts': dict(min_iter=0, max_iter=10, tol=lib.fhex(TOL), offset=0, failures='raise', errors='raise', catch_first_error=True)})
     # two models in one process with the same non-default check list at different rows
     pA, pB = fixed[0], fixed[2]          # Y = {a} * Y[-1] + X  (Y is row 0)   /   Y = C + G ; C = {c1} * Y  (order of NAMES decides)
     for main, other in ((pA, pB), (pB, pA)):
@@ -1048,7 +1057,12 @@ def _call(m, span, case):
             out = ['ret', bool(m.solve_t(case['t'], **kw))]
         else:
             a, b_ = case.get('start'), case.get('end')
-            labels, idx, solved = m.solve(start=None if a is None else span[a], end=None if b_ is None else span[b_], **kw)
+            la, lb = None if a is None else span[a], None if b_ is None else span[b_]
+            if case.get('miss') == 'start':
+                la = 1066                                  # a label no generated span contains
+            elif case.get('miss') == 'end':
+                lb = 1066
+            labels, idx, solved = m.solve(start=la, end=lb, **kw)
             out = ['ret', [int(i) for i in idx], [bool(x) for x in solved], [repr(x) for x in labels],
                    len(labels) == len(idx) and all(repr(x) == repr(span[i]) for x, i in zip(labels, idx))]     # the labels ARE span[idx]
     except Exception as e:
@@ -1443,7 +1457,7 @@ def c_ccase(case, obs):
 def model_inputs_ok(case, obs):
     """Inputs the float model can take at all (solve with a start/end outside the span raises before any engine work; constants beyond
     INTEGER(4) / REAL(4) are outside the model — ASSUMPTIONS — and judged by the oracle alone)."""
-    if case['prog'].get('family') == 'range' or literal_hazards(case['prog']['eqs']):
+    if case['prog'].get('family') == 'range' or literal_hazards(case['prog']['eqs']) or case.get('miss'):
         return False
     if case['entry'] == 'solve':
         ps = solve_positions(case, obs)
@@ -1780,6 +1794,11 @@ def oracle(case, obs):
     # ---- hypotheses of the statement
     if o['errors'] not in ERRMODES or o['failures'] not in ('raise', 'ignore'):
         return fails                                       # outside the option lattice both engines document
+    if case.get('miss'):
+        if py['out'][:2] != ['raise', 'KeyError'] or f['out'][:2] != ['raise', 'KeyError'] or py['vals'] != f['vals'] or py['status'] != f['status']:
+            bad('solve|label-not-in-span|mismatch', 'solve(%s=<a label not in the span>): Python engine %s, Fortran engine %s (KeyError from both, nothing changed)'
+                % (case['miss'], py['out'], f['out']))
+        return fails
     if n == 0 and case['entry'] == 'solve':
         if py['out'][:2] != f['out'][:2]:
             bad('solve|empty-span|mismatch', 'solve() of a model without periods (SolutionError from both since fix e0867c1): Python engine %s, Fortran engine %s' % (py['out'], f['out']))
